@@ -12,7 +12,7 @@ pub open spec fn acc_ok(step: spec_fn(int, Seq<Violation>, Seq<Violation>) -> bo
     if n <= 0 {
         l.len() == 0
     } else {
-        exists|prev: Seq<Violation>| #[trigger] acc_ok(step, n - 1, prev) && step(n - 1, prev, l)
+        exists|prev: Seq<Violation>| acc_ok(step, n - 1, prev) && #[trigger] step(n - 1, prev, l)
     }
 }
 
@@ -32,7 +32,7 @@ pub proof fn lemma_acc_step(step: spec_fn(int, Seq<Violation>, Seq<Violation>) -
     ensures exists|a: Seq<Violation>, b: Seq<Violation>| #[trigger] step(j, a, b),
     decreases n,
 {
-    let prev = choose|prev: Seq<Violation>| #[trigger] acc_ok(step, n - 1, prev) && step(n - 1, prev, l);
+    let prev = choose|prev: Seq<Violation>| acc_ok(step, n - 1, prev) && #[trigger] step(n - 1, prev, l);
     if j == n - 1 {
         assert(step(j, prev, l));
     } else {
